@@ -53,12 +53,12 @@ def generate(rng, tier, index):
         t = 0.0
         allr = sorted(((r['at'], c, i) for c, reqs in enumerate(scn['conns']) for i, r in enumerate(reqs)))
         for (_, c, i) in allr:
-            t += 0.01
+            t += 0.1                # > the span of a frame delivered in pieces (<= 3 x 0.0125 s)
             scn['conns'][c][i]['at'] = round(t, 6)
     elif scn['experiment'] == 'concurrent':
         for c, reqs in enumerate(scn['conns']):
             for i, r in enumerate(reqs):
-                r['at'] = round(0.01 * (i + 1), 6)       # request i of every connection at the same instant
+                r['at'] = round(0.1 * (i + 1), 6)        # request i of every connection at the same instant
     if scn['experiment'] == 'isolation':
         # isolation: connection 0 is the disturber
         kind = rng.choice(['partial', 'garbage', 'partial_then_rest'])
@@ -69,14 +69,14 @@ def generate(rng, tier, index):
             raw = bytes(rng.randrange(256) for _ in range(rng.choice([1, 3, 7, 20])))
         else:
             raw = fr[:rng.randrange(1, len(fr))]
-        dist = [{'raw': raw.hex(), 'at': round(0.005 + 0.01 * rng.randrange(0, 4), 6), 'tag': 'hostile', 'hk': kind}]
+        dist = [{'raw': raw.hex(), 'at': round(0.05 + 0.1 * rng.randrange(0, 4), 6), 'tag': 'hostile', 'hk': kind}]
         if kind == 'partial_then_rest' and len(raw) < len(fr):
             # the rest of the frame later: a complete valid request of its own, which may change the
             # data the victims read - only the framing state must stay private, so use a read
             fr = codec.frame(scn['framing'], 1, codec.req_read(3, 0, 1), tid=0x4444)
             cut = rng.randrange(1, len(fr))
             dist = [{'raw': fr[:cut].hex(), 'at': dist[0]['at'], 'tag': 'hostile', 'hk': kind},
-                    {'raw': fr[cut:].hex(), 'at': round(dist[0]['at'] + 0.02, 6), 'tag': 'hostile', 'hk': kind}]
+                    {'raw': fr[cut:].hex(), 'at': round(dist[0]['at'] + 0.2, 6), 'tag': 'hostile', 'hk': kind}]
         scn['conns'] = [dist] + victim
         scn['hostile'] = [0]
         scn['disturb'] = kind
